@@ -2804,3 +2804,11 @@ V(id='c16-rational-compare-reversed', prop='C16', file='mpmath/ctx_iv.py',
 V(id='c16-rational-membership-one-sided', prop='C16', file='mpmath/ctx_iv.py',
   old="            return mpf_le(a, p) and mpf_le(p, b)\n", new="            return mpf_le(a, p)\n",
   expect='fire:F-R13:__contains__')
+
+# ---- C43 third hunt: F-R14 asech side of the cut (fix ccf5cfa) ----
+V(id='c43-asech-plain-reciprocal', prop='C43', file='mpmath/functions/functions.py',
+  old="    if ctx._im(z) and not ctx._im(w):\n        v = ctx.acosh(ctx._re(w))\n        if ctx._im(z) > 0:\n            return ctx.conj(v)\n        return v\n    return ctx.acosh(w)\n", new="    return ctx.acosh(w)\n",
+  expect='fire:F-R14:asech')
+V(id='c43-asech-side-reversed', prop='C43', file='mpmath/functions/functions.py',
+  old="        if ctx._im(z) > 0:\n            return ctx.conj(v)\n        return v\n", new="        if ctx._im(z) < 0:\n            return ctx.conj(v)\n        return v\n",
+  expect='fire:F-R14:asech')
